@@ -308,6 +308,7 @@ public:
     void destroy() { if (fSax1) { delete fSax1; fSax1 = 0; } if (fSax2) { delete fSax2; fSax2 = 0; } if (fDom) { delete fDom; fDom = 0; } if (fLs) { fLs->release(); fLs = 0; } delete fSec; fSec = 0; }
     int api() const { return fApi; }
     XercesDOMParser* dom() { return fDom; } DOMLSParser* ls() { return fLs; } SAXParser* sax1() { return fSax1; } SAX2XMLReader* sax2() { return fSax2; }
+    int fScannerKind = 0;      // 0 = IGXMLScanner, the scanner every parser starts with
     Rec& rec() { return fRec; } SimResolver& resolver() { return fResolver; }
 
     void configure(const ParseCfg& c) {
@@ -315,8 +316,10 @@ public:
         const XMLCh* scn = c.scanner == 1 ? XMLUni::fgWFXMLScanner : c.scanner == 2 ? XMLUni::fgDGXMLScanner : c.scanner == 3 ? XMLUni::fgSGXMLScanner : XMLUni::fgIGXMLScanner;
         if (c.secMgr) { if (!fSec) fSec = new SecurityManager(); fSec->setEntityExpansionLimit((XMLSize_t)c.entityLimit); }
         SecurityManager* sm = c.secMgr ? fSec : nullptr;
+        // installing a scanner REPLACES the scanner object (and with it everything the old one remembered): only when the kind changes
+        const bool newScanner = c.scanner != fScannerKind; fScannerKind = c.scanner; if (newScanner) g_run.probe("scanner_replaced");
         if (fSax1) { auto* p = fSax1;
-            p->useScanner(scn);
+            if (newScanner) p->useScanner(scn);
             p->setValidationScheme(c.val == 0 ? SAXParser::Val_Never : c.val == 1 ? SAXParser::Val_Always : SAXParser::Val_Auto);
             p->setDoNamespaces(c.ns); p->setDoSchema(c.schema); p->setValidationSchemaFullChecking(c.fullSchema); p->setIdentityConstraintChecking(c.identity);
             p->setExitOnFirstFatalError(c.exitOnFirstFatal); p->setValidationConstraintFatal(c.validationErrorAsFatal); p->setLoadExternalDTD(c.loadExternalDTD); p->setLoadSchema(c.loadSchema);
@@ -325,7 +328,7 @@ public:
             if (c.lowWaterMark >= 0) p->setLowWaterMark((XMLSize_t)c.lowWaterMark); else p->setLowWaterMark(100);
             if (c.calcSrcOfs) fRec.srcOfs = [p]() { return " ofs=" + std::to_string((unsigned long long)p->getSrcOffset()); }; else fRec.srcOfs = nullptr;
         } else if (fSax2) { auto* p = fSax2;
-            p->setProperty(XMLUni::fgXercesScannerName, (void*)scn);
+            if (newScanner) p->setProperty(XMLUni::fgXercesScannerName, (void*)scn);
             p->setFeature(XMLUni::fgSAX2CoreValidation, c.val != 0); p->setFeature(XMLUni::fgXercesDynamic, c.val == 2);
             p->setFeature(XMLUni::fgSAX2CoreNameSpaces, c.ns); p->setFeature(XMLUni::fgSAX2CoreNameSpacePrefixes, c.nsPrefixes);
             p->setFeature(XMLUni::fgXercesSchema, c.schema); p->setFeature(XMLUni::fgXercesSchemaFullChecking, c.fullSchema); p->setFeature(XMLUni::fgXercesIdentityConstraintChecking, c.identity);
@@ -338,7 +341,7 @@ public:
             XMLSize_t lw = c.lowWaterMark >= 0 ? (XMLSize_t)c.lowWaterMark : 100; p->setProperty(XMLUni::fgXercesLowWaterMark, &lw);
             if (c.calcSrcOfs) fRec.srcOfs = [p]() { return " ofs=" + std::to_string((unsigned long long)((SAX2XMLReaderImpl*)p)->getSrcOffset()); }; else fRec.srcOfs = nullptr;
         } else if (fDom) { auto* p = fDom;
-            p->useScanner(scn);
+            if (newScanner) p->useScanner(scn);
             p->setValidationScheme(c.val == 0 ? XercesDOMParser::Val_Never : c.val == 1 ? XercesDOMParser::Val_Always : XercesDOMParser::Val_Auto);
             p->setDoNamespaces(c.ns); p->setDoSchema(c.schema); p->setValidationSchemaFullChecking(c.fullSchema); p->setIdentityConstraintChecking(c.identity);
             p->setExitOnFirstFatalError(c.exitOnFirstFatal); p->setValidationConstraintFatal(c.validationErrorAsFatal); p->setLoadExternalDTD(c.loadExternalDTD); p->setLoadSchema(c.loadSchema);
@@ -349,7 +352,7 @@ public:
             if (c.lowWaterMark >= 0) p->setLowWaterMark((XMLSize_t)c.lowWaterMark); else p->setLowWaterMark(100);
         } else if (fLs) { DOMConfiguration* g = fLs->getDomConfig();
             auto setb = [&](const XMLCh* n, bool v) { if (g->canSetParameter(n, v)) g->setParameter(n, v); };
-            g->setParameter(XMLUni::fgXercesScannerName, (const void*)scn);
+            if (newScanner) g->setParameter(XMLUni::fgXercesScannerName, (const void*)scn);
             setb(XMLUni::fgDOMValidate, c.val == 1); setb(XMLUni::fgDOMValidateIfSchema, c.val == 2);
             setb(XMLUni::fgDOMNamespaces, c.ns); setb(XMLUni::fgXercesSchema, c.schema); setb(XMLUni::fgXercesSchemaFullChecking, c.fullSchema); setb(XMLUni::fgXercesIdentityConstraintChecking, c.identity);
             setb(XMLUni::fgXercesContinueAfterFatalError, !c.exitOnFirstFatal); setb(XMLUni::fgXercesValidationErrorAsFatal, c.validationErrorAsFatal);
